@@ -674,7 +674,6 @@ fn gated_ops(c: &mut Case, cfg: &NewCfg, b: &mut Built<ModelTransport>, st: &Rc<
         }
         _ => {}
     }
-    virtio_drivers::verif_hooks::set_spin_hook(None);
     st.borrow_mut().on_notify = None;
 }
 
